@@ -11,80 +11,117 @@ import (
 func g() { simrt.Gate("atomic", nil) }
 
 func AddInt32(addr *int32, delta int32) int32 { g(); return goatomic.AddInt32(addr, delta) }
-func LoadInt32(addr *int32) int32 { g(); return goatomic.LoadInt32(addr) }
-func StoreInt32(addr *int32, v int32) { g(); goatomic.StoreInt32(addr, v) }
-func SwapInt32(addr *int32, v int32) int32 { g(); return goatomic.SwapInt32(addr, v) }
-func CompareAndSwapInt32(addr *int32, o, n int32) bool { g(); return goatomic.CompareAndSwapInt32(addr, o, n) }
+func LoadInt32(addr *int32) int32             { g(); return goatomic.LoadInt32(addr) }
+func StoreInt32(addr *int32, v int32)         { g(); goatomic.StoreInt32(addr, v) }
+func SwapInt32(addr *int32, v int32) int32    { g(); return goatomic.SwapInt32(addr, v) }
+func CompareAndSwapInt32(addr *int32, o, n int32) bool {
+	g()
+	return goatomic.CompareAndSwapInt32(addr, o, n)
+}
+
 type Int32 struct{ v goatomic.Int32 }
-func (x *Int32) Load() int32 { g(); return x.v.Load() }
-func (x *Int32) Store(v int32) { g(); x.v.Store(v) }
-func (x *Int32) Add(d int32) int32 { g(); return x.v.Add(d) }
-func (x *Int32) Swap(v int32) int32 { g(); return x.v.Swap(v) }
+
+func (x *Int32) Load() int32                    { g(); return x.v.Load() }
+func (x *Int32) Store(v int32)                  { g(); x.v.Store(v) }
+func (x *Int32) Add(d int32) int32              { g(); return x.v.Add(d) }
+func (x *Int32) Swap(v int32) int32             { g(); return x.v.Swap(v) }
 func (x *Int32) CompareAndSwap(o, n int32) bool { g(); return x.v.CompareAndSwap(o, n) }
-func AddInt64(addr *int64, delta int64) int64 { g(); return goatomic.AddInt64(addr, delta) }
-func LoadInt64(addr *int64) int64 { g(); return goatomic.LoadInt64(addr) }
-func StoreInt64(addr *int64, v int64) { g(); goatomic.StoreInt64(addr, v) }
-func SwapInt64(addr *int64, v int64) int64 { g(); return goatomic.SwapInt64(addr, v) }
-func CompareAndSwapInt64(addr *int64, o, n int64) bool { g(); return goatomic.CompareAndSwapInt64(addr, o, n) }
+func AddInt64(addr *int64, delta int64) int64   { g(); return goatomic.AddInt64(addr, delta) }
+func LoadInt64(addr *int64) int64               { g(); return goatomic.LoadInt64(addr) }
+func StoreInt64(addr *int64, v int64)           { g(); goatomic.StoreInt64(addr, v) }
+func SwapInt64(addr *int64, v int64) int64      { g(); return goatomic.SwapInt64(addr, v) }
+func CompareAndSwapInt64(addr *int64, o, n int64) bool {
+	g()
+	return goatomic.CompareAndSwapInt64(addr, o, n)
+}
+
 type Int64 struct{ v goatomic.Int64 }
-func (x *Int64) Load() int64 { g(); return x.v.Load() }
-func (x *Int64) Store(v int64) { g(); x.v.Store(v) }
-func (x *Int64) Add(d int64) int64 { g(); return x.v.Add(d) }
-func (x *Int64) Swap(v int64) int64 { g(); return x.v.Swap(v) }
-func (x *Int64) CompareAndSwap(o, n int64) bool { g(); return x.v.CompareAndSwap(o, n) }
+
+func (x *Int64) Load() int64                      { g(); return x.v.Load() }
+func (x *Int64) Store(v int64)                    { g(); x.v.Store(v) }
+func (x *Int64) Add(d int64) int64                { g(); return x.v.Add(d) }
+func (x *Int64) Swap(v int64) int64               { g(); return x.v.Swap(v) }
+func (x *Int64) CompareAndSwap(o, n int64) bool   { g(); return x.v.CompareAndSwap(o, n) }
 func AddUint32(addr *uint32, delta uint32) uint32 { g(); return goatomic.AddUint32(addr, delta) }
-func LoadUint32(addr *uint32) uint32 { g(); return goatomic.LoadUint32(addr) }
-func StoreUint32(addr *uint32, v uint32) { g(); goatomic.StoreUint32(addr, v) }
-func SwapUint32(addr *uint32, v uint32) uint32 { g(); return goatomic.SwapUint32(addr, v) }
-func CompareAndSwapUint32(addr *uint32, o, n uint32) bool { g(); return goatomic.CompareAndSwapUint32(addr, o, n) }
+func LoadUint32(addr *uint32) uint32              { g(); return goatomic.LoadUint32(addr) }
+func StoreUint32(addr *uint32, v uint32)          { g(); goatomic.StoreUint32(addr, v) }
+func SwapUint32(addr *uint32, v uint32) uint32    { g(); return goatomic.SwapUint32(addr, v) }
+func CompareAndSwapUint32(addr *uint32, o, n uint32) bool {
+	g()
+	return goatomic.CompareAndSwapUint32(addr, o, n)
+}
+
 type Uint32 struct{ v goatomic.Uint32 }
-func (x *Uint32) Load() uint32 { g(); return x.v.Load() }
-func (x *Uint32) Store(v uint32) { g(); x.v.Store(v) }
-func (x *Uint32) Add(d uint32) uint32 { g(); return x.v.Add(d) }
-func (x *Uint32) Swap(v uint32) uint32 { g(); return x.v.Swap(v) }
+
+func (x *Uint32) Load() uint32                    { g(); return x.v.Load() }
+func (x *Uint32) Store(v uint32)                  { g(); x.v.Store(v) }
+func (x *Uint32) Add(d uint32) uint32             { g(); return x.v.Add(d) }
+func (x *Uint32) Swap(v uint32) uint32            { g(); return x.v.Swap(v) }
 func (x *Uint32) CompareAndSwap(o, n uint32) bool { g(); return x.v.CompareAndSwap(o, n) }
 func AddUint64(addr *uint64, delta uint64) uint64 { g(); return goatomic.AddUint64(addr, delta) }
-func LoadUint64(addr *uint64) uint64 { g(); return goatomic.LoadUint64(addr) }
-func StoreUint64(addr *uint64, v uint64) { g(); goatomic.StoreUint64(addr, v) }
-func SwapUint64(addr *uint64, v uint64) uint64 { g(); return goatomic.SwapUint64(addr, v) }
-func CompareAndSwapUint64(addr *uint64, o, n uint64) bool { g(); return goatomic.CompareAndSwapUint64(addr, o, n) }
+func LoadUint64(addr *uint64) uint64              { g(); return goatomic.LoadUint64(addr) }
+func StoreUint64(addr *uint64, v uint64)          { g(); goatomic.StoreUint64(addr, v) }
+func SwapUint64(addr *uint64, v uint64) uint64    { g(); return goatomic.SwapUint64(addr, v) }
+func CompareAndSwapUint64(addr *uint64, o, n uint64) bool {
+	g()
+	return goatomic.CompareAndSwapUint64(addr, o, n)
+}
+
 type Uint64 struct{ v goatomic.Uint64 }
-func (x *Uint64) Load() uint64 { g(); return x.v.Load() }
-func (x *Uint64) Store(v uint64) { g(); x.v.Store(v) }
-func (x *Uint64) Add(d uint64) uint64 { g(); return x.v.Add(d) }
-func (x *Uint64) Swap(v uint64) uint64 { g(); return x.v.Swap(v) }
-func (x *Uint64) CompareAndSwap(o, n uint64) bool { g(); return x.v.CompareAndSwap(o, n) }
+
+func (x *Uint64) Load() uint64                        { g(); return x.v.Load() }
+func (x *Uint64) Store(v uint64)                      { g(); x.v.Store(v) }
+func (x *Uint64) Add(d uint64) uint64                 { g(); return x.v.Add(d) }
+func (x *Uint64) Swap(v uint64) uint64                { g(); return x.v.Swap(v) }
+func (x *Uint64) CompareAndSwap(o, n uint64) bool     { g(); return x.v.CompareAndSwap(o, n) }
 func AddUintptr(addr *uintptr, delta uintptr) uintptr { g(); return goatomic.AddUintptr(addr, delta) }
-func LoadUintptr(addr *uintptr) uintptr { g(); return goatomic.LoadUintptr(addr) }
-func StoreUintptr(addr *uintptr, v uintptr) { g(); goatomic.StoreUintptr(addr, v) }
-func SwapUintptr(addr *uintptr, v uintptr) uintptr { g(); return goatomic.SwapUintptr(addr, v) }
-func CompareAndSwapUintptr(addr *uintptr, o, n uintptr) bool { g(); return goatomic.CompareAndSwapUintptr(addr, o, n) }
-func LoadPointer(addr *unsafe.Pointer) unsafe.Pointer { g(); return goatomic.LoadPointer(addr) }
+func LoadUintptr(addr *uintptr) uintptr               { g(); return goatomic.LoadUintptr(addr) }
+func StoreUintptr(addr *uintptr, v uintptr)           { g(); goatomic.StoreUintptr(addr, v) }
+func SwapUintptr(addr *uintptr, v uintptr) uintptr    { g(); return goatomic.SwapUintptr(addr, v) }
+func CompareAndSwapUintptr(addr *uintptr, o, n uintptr) bool {
+	g()
+	return goatomic.CompareAndSwapUintptr(addr, o, n)
+}
+func LoadPointer(addr *unsafe.Pointer) unsafe.Pointer     { g(); return goatomic.LoadPointer(addr) }
 func StorePointer(addr *unsafe.Pointer, v unsafe.Pointer) { g(); goatomic.StorePointer(addr, v) }
+
 type Bool struct{ v goatomic.Bool }
-func (x *Bool) Load() bool { g(); return x.v.Load() }
-func (x *Bool) Store(v bool) { g(); x.v.Store(v) }
-func (x *Bool) Swap(v bool) bool { g(); return x.v.Swap(v) }
+
+func (x *Bool) Load() bool                    { g(); return x.v.Load() }
+func (x *Bool) Store(v bool)                  { g(); x.v.Store(v) }
+func (x *Bool) Swap(v bool) bool              { g(); return x.v.Swap(v) }
 func (x *Bool) CompareAndSwap(o, n bool) bool { g(); return x.v.CompareAndSwap(o, n) }
+
 type Value struct{ v goatomic.Value }
-func (x *Value) Load() any { g(); return x.v.Load() }
+
+func (x *Value) Load() any   { g(); return x.v.Load() }
 func (x *Value) Store(v any) { g(); x.v.Store(v) }
+
 type Pointer[T any] struct{ v goatomic.Pointer[T] }
-func (x *Pointer[T]) Load() *T { g(); return x.v.Load() }
-func (x *Pointer[T]) Store(v *T) { g(); x.v.Store(v) }
-func (x *Pointer[T]) Swap(v *T) *T { g(); return x.v.Swap(v) }
+
+func (x *Pointer[T]) Load() *T                    { g(); return x.v.Load() }
+func (x *Pointer[T]) Store(v *T)                  { g(); x.v.Store(v) }
+func (x *Pointer[T]) Swap(v *T) *T                { g(); return x.v.Swap(v) }
 func (x *Pointer[T]) CompareAndSwap(o, n *T) bool { g(); return x.v.CompareAndSwap(o, n) }
-func CompareAndSwapPointer(addr *unsafe.Pointer, o, n unsafe.Pointer) bool { g(); return goatomic.CompareAndSwapPointer(addr, o, n) }
-func SwapPointer(addr *unsafe.Pointer, n unsafe.Pointer) unsafe.Pointer { g(); return goatomic.SwapPointer(addr, n) }
-func (x *Value) Swap(v any) any { g(); return x.v.Swap(v) }
+func CompareAndSwapPointer(addr *unsafe.Pointer, o, n unsafe.Pointer) bool {
+	g()
+	return goatomic.CompareAndSwapPointer(addr, o, n)
+}
+func SwapPointer(addr *unsafe.Pointer, n unsafe.Pointer) unsafe.Pointer {
+	g()
+	return goatomic.SwapPointer(addr, n)
+}
+func (x *Value) Swap(v any) any               { g(); return x.v.Swap(v) }
 func (x *Value) CompareAndSwap(o, n any) bool { g(); return x.v.CompareAndSwap(o, n) }
-func (x *Int32) And(m int32) int32 { g(); return x.v.And(m) }
-func (x *Int32) Or(m int32) int32 { g(); return x.v.Or(m) }
-func (x *Uint32) And(m uint32) uint32 { g(); return x.v.And(m) }
-func (x *Uint32) Or(m uint32) uint32 { g(); return x.v.Or(m) }
+func (x *Int32) And(m int32) int32            { g(); return x.v.And(m) }
+func (x *Int32) Or(m int32) int32             { g(); return x.v.Or(m) }
+func (x *Uint32) And(m uint32) uint32         { g(); return x.v.And(m) }
+func (x *Uint32) Or(m uint32) uint32          { g(); return x.v.Or(m) }
+
 type Uintptr struct{ v goatomic.Uintptr }
-func (x *Uintptr) Load() uintptr { g(); return x.v.Load() }
-func (x *Uintptr) Store(v uintptr) { g(); x.v.Store(v) }
-func (x *Uintptr) Add(d uintptr) uintptr { g(); return x.v.Add(d) }
-func (x *Uintptr) Swap(v uintptr) uintptr { g(); return x.v.Swap(v) }
+
+func (x *Uintptr) Load() uintptr                    { g(); return x.v.Load() }
+func (x *Uintptr) Store(v uintptr)                  { g(); x.v.Store(v) }
+func (x *Uintptr) Add(d uintptr) uintptr            { g(); return x.v.Add(d) }
+func (x *Uintptr) Swap(v uintptr) uintptr           { g(); return x.v.Swap(v) }
 func (x *Uintptr) CompareAndSwap(o, n uintptr) bool { g(); return x.v.CompareAndSwap(o, n) }
